@@ -10,28 +10,23 @@ From JB Require Import CastWalk.
 From JB Require Import PathSafe.
 From JB Require Import SerdeWalk.
 From JB Require Import KeysWalk.
+From JB Require Import EditWalk.
 Extraction Language OCaml.
 Extraction "model.ml"
-  to_vec write_to_vec enc parse_jsonb is_jsonb assoc_insert
-  compact_encode num_decode num_decode_old num_cmp num_cmp_old num_eqb as_i64 as_u64 as_f64 normalise
-  parse_value from_slice doc_of cmp_value compare_m value_eqb
-  compare_w comparable_w
-  to_string_w to_pretty_string_w
-  array_length_w get_by_index_w get_by_name_w get_by_keypath_w object_keys_w object_each_w array_values_w
-  type_of_w as_null_w as_bool_w as_number_w as_i64_w as_u64_w as_f64_w as_str_w is_array_w is_object_w
-  to_bool_w to_i64_w to_u64_w to_f64_w to_str_w traverse_check_string_w
-  array_length_m get_by_index_m get_by_name_m get_by_keypath_m object_keys_m object_each_m array_values_m type_of_m
-  as_null_m as_bool_m as_number_m as_i64_m as_u64_m as_f64_m as_str_m is_array_m is_object_m
-  to_bool_m to_i64_m to_u64_m to_f64_m to_str_m exists_all_keys_m exists_any_keys_m traverse_check_string_m
-  to_string_m to_pretty_string_m compare_api convert_to_comparable_m contains_m
-  array_distinct_m array_intersection_m array_except_m array_overlap_m
-  concat_m delete_by_name_m delete_by_index_m delete_by_keypath_m array_insert_m object_insert_m object_delete_m
-  object_pick_m strip_nulls_m build_array_m build_object_m
-  select_m sel_exists_m sel_predicate_match_m get_by_path_m get_by_path_first_m get_by_path_array_m path_exists_m path_match_m
-  select_w sel_exists_w sel_predicate_match_w get_by_path_w get_by_path_first_w get_by_path_array_w path_exists_w path_match_w
-  to_serde_json_m to_serde_json_object_m value_to_serde serde_to_value
-  to_serde_json_w to_serde_json_object_w
-  exists_all_keys_w exists_any_keys_w
-  parse_lazy_value lazy_to_vec lazy_array_length lazy_to_value
-  parse_json_path parse_key_paths show_json_path show_key_paths float_placeholder
-  safe_path leaf_path no_floats.
+  to_vec write_to_vec enc parse_jsonb is_jsonb assoc_insert compact_encode num_decode num_decode_old num_cmp
+  num_cmp_old num_eqb as_i64 as_u64 as_f64 normalise parse_value from_slice doc_of cmp_value compare_m value_eqb
+  compare_w comparable_w to_string_w to_pretty_string_w array_length_w get_by_index_w get_by_name_w get_by_keypath_w
+  object_keys_w object_each_w array_values_w type_of_w as_null_w as_bool_w as_number_w as_i64_w as_u64_w as_f64_w
+  as_str_w is_array_w is_object_w to_bool_w to_i64_w to_u64_w to_f64_w to_str_w traverse_check_string_w array_length_m
+  get_by_index_m get_by_name_m get_by_keypath_m object_keys_m object_each_m array_values_m type_of_m as_null_m
+  as_bool_m as_number_m as_i64_m as_u64_m as_f64_m as_str_m is_array_m is_object_m to_bool_m to_i64_m to_u64_m to_f64_m
+  to_str_m exists_all_keys_m exists_any_keys_m traverse_check_string_m to_string_m to_pretty_string_m compare_api
+  convert_to_comparable_m contains_m array_distinct_m array_intersection_m array_except_m array_overlap_m concat_m
+  delete_by_name_m delete_by_index_m delete_by_keypath_m array_insert_m object_insert_m object_delete_m object_pick_m
+  strip_nulls_m build_array_m build_object_m select_m sel_exists_m sel_predicate_match_m get_by_path_m
+  get_by_path_first_m get_by_path_array_m path_exists_m path_match_m select_w sel_exists_w sel_predicate_match_w
+  get_by_path_w get_by_path_first_w get_by_path_array_w path_exists_w path_match_w to_serde_json_m
+  to_serde_json_object_m value_to_serde serde_to_value to_serde_json_w to_serde_json_object_w exists_all_keys_w
+  exists_any_keys_w parse_lazy_value lazy_to_vec lazy_array_length lazy_to_value parse_json_path parse_key_paths
+  show_json_path show_key_paths float_placeholder safe_path leaf_path no_floats concat_w delete_by_name_w
+  delete_by_index_w array_insert_w build_array_w build_object_w build_array_st build_object_st.
